@@ -5,13 +5,14 @@ Open Scope N_scope.
 
 (* outcome codes: 0 returned a result, 1 returned "torrent is dead", 2 another error, 9 did not return *)
 Record lccase := mk_lccase { lc_id : N; lc_calls : list (string * N); lc_kill : N; lc_listed : bool;
-                             lc_open_conns : N; lc_reader_hangs : N; lc_left_bytes : N; lc_left_go : N }.
+                             lc_open_conns : N; lc_reader_hangs : N; lc_left_bytes : N; lc_left_go : N;
+                             lc_left_unchoking : N }.   (* upload slots still counted as taken (peer.NumUnchoking) *)
 
 (* every call returned; the deletion itself returned; afterwards the torrent is not listed, every
    peer connection is closed, the blocked reader failed, no memory and no goroutine is left *)
 Definition mon_lc (c : lccase) : bool :=
   forallb (fun x => negb (snd x =? 9)) (lc_calls c) && negb (lc_kill c =? 9) &&
   negb (lc_listed c) && (lc_open_conns c =? 0) && (lc_reader_hangs c =? 0) &&
-  (lc_left_bytes c =? 0) && (lc_left_go c <=? 2).
+  (lc_left_bytes c =? 0) && (lc_left_go c <=? 2) && (lc_left_unchoking c =? 0).
 
 Definition bad_monitor_lc (cs : list lccase) : list N := map lc_id (filter (fun c => negb (mon_lc c)) cs).
